@@ -159,6 +159,41 @@ def key_provenance(ctx):
                 ctx.ok(c, fn, created=log["created"])
 
 
+@rule("C08.symbolic-operand-order", props=["C08", "C02"], min_instances=2, mutants=[
+    ("symbolic operands always canonical", ("multivector", "            keys = algebra.indices_for_grades[grades] if not keys else keys\n            values = list(symbolcls", "            keys = tuple(k for k in algebra.indices_for_grades[grades] if not keys or k in keys)\n            values = list(symbolcls")),
+])
+def symbolic_operand_order(ctx):
+    """The symbolic operand created for a cache miss stores its keys in exactly the order of the key pattern, and
+    names each symbol after the blade of its own key (real constructor, not a stub)."""
+    from ..absint import ClassRef
+    from ..symenv import Val, val_repr
+    repo = ctx.repo
+    q = "multivector.MultiVector.__new__"
+    fn = ctx.func(q)
+    for label, keys, want in (("3-D shuffled", (6, 1, 7, 3), ["a23", "a1", "a123", "a12"]), ("binary-order full 2-D", (0, 1, 2, 3), ["a", "a1", "a2", "a12"])):
+        c = f"{q}#symbolic:{label}"
+        alg = rep_algebra(3 if max(keys) > 3 else 2)
+        it = make_interp(repo)
+        it.algebra = alg
+        symcls = Obj("symbolcls", call=lambda name, *a, **k: Val(str(name)))
+        try:
+            out = it.run(q, [ClassRef("MultiVector"), alg], {"name": "a", "keys": keys, "symbolcls": symcls})
+        except NoValue as exc:
+            raise Unknown(c, str(exc), fn)
+        if out[0] == "raise" or not isinstance(out[1], Obj):
+            ctx.violation(c, f"creating the symbolic operand for key pattern {keys} gives {out[0]} {out[1]!r}", fn)
+            continue
+        got_keys = tuple(out[1].attrs.get("_keys", ()))
+        got_vals = [val_repr(v) if isinstance(v, Obj) else v for v in out[1].attrs.get("_values", [])]
+        if got_keys == keys and got_vals == want:
+            ctx.ok(c, fn, keys=keys, symbols=want)
+        else:
+            ctx.violation(c, f"the symbolic operand created for key pattern {keys} stores keys {got_keys} with symbols "
+                             f"{got_vals} (expected {keys} / {want}): the function generated for this pattern unpacks its "
+                             f"argument in another order than the operand's values are passed, so coefficients land on "
+                             f"the wrong blades for non-canonically stored operands", fn)
+
+
 # --------------------------------------------------------------------------- do_codegen pipeline
 def run_do_codegen(repo, res_kind, cse):
     alg = rep_algebra(3, extra_attrs={"cse": cse})
@@ -443,8 +478,11 @@ def no_positional_codegen(ctx):
             if isinstance(n, ast.Call) and call_name(n) == "zip":
                 srcs = set()
                 for a in n.args:
-                    if isinstance(a, ast.Call) and isinstance(a.func, ast.Attribute) and a.func.attr == "values" and isinstance(a.func.value, ast.Name):
+                    if isinstance(a, ast.Call) and isinstance(a.func, ast.Attribute) and a.func.attr in ("values", "items", "keys") \
+                            and isinstance(a.func.value, ast.Name):
                         srcs.add(a.func.value.id)
+                    elif isinstance(a, ast.Attribute) and a.attr in ("_values", "_keys") and isinstance(a.value, ast.Name):
+                        srcs.add(a.value.id)
                 if len(srcs & set(ps)) >= 2:
                     bad = (n, f"{un(n)} pairs the value sequences of two different operands by position")
             if isinstance(n, ast.Call) and isinstance(n.func, ast.Name) and n.func.id.startswith("codegen_"):
